@@ -54,6 +54,10 @@ impl TryFrom<DateTime<Utc>> for crate::Instant {
             .try_into()
             .map_err(|_| TimeError::InvalidTime)?;
         let nanos = time.timestamp_subsec_nanos();
+        // chrono represents a leap second as nanos >= 1_000_000_000, which is not a valid Instant
+        if nanos >= 1_000_000_000 {
+            return Err(TimeError::InvalidTime);
+        }
         Ok(crate::Instant { seconds, nanos })
     }
 }
